@@ -276,7 +276,8 @@ func check(args []string) int {
 		ps := eng.Specs[p]
 		for _, key := range ps.Order {
 			ct := ps.Funcs[key]
-			if !hasProp(ct.Props, *prop) || (*fn != "" && !strings.Contains(key, *fn)) {
+			// C13 (no data race) is decided by the lock-discipline obligations of every function under contract
+			if (!hasProp(ct.Props, *prop) && *prop != "C13") || (*fn != "" && !strings.Contains(key, *fn)) {
 				continue
 			}
 			if ct.InlineOnly {
@@ -298,6 +299,12 @@ func check(args []string) int {
 			for _, o := range os2 {
 				// obligations generated from clauses tagged with their own properties (inv T1[C14]: ...) count
 				// only for those properties; reachability covers always count
+				if *prop == "C13" {
+					if o.Kind == "vacuity" || isDisciplineObligation(o.Name) {
+						obls = append(obls, o)
+					}
+					continue
+				}
 				if o.Kind == "vacuity" || len(o.Props) == 0 || hasProp(o.Props, *prop) {
 					obls = append(obls, o)
 				}
@@ -521,4 +528,22 @@ func sanitizeName(name string) string {
 func writeJSON(path string, v any) {
 	data, _ := json.MarshalIndent(v, "", " ")
 	os.WriteFile(path, data, 0o644)
+}
+
+// isDisciplineObligation: the obligations that together are the data-race argument: every access to a field or
+// captured variable happens under its declared protection (lock held, atomic, immutable after construction,
+// publication discipline, local monitor), helpers are called with their lock held, locks are not leaked,
+// re-entered or held across blocking operations.
+func isDisciplineObligation(name string) bool {
+	i := strings.Index(name, "#")
+	if i < 0 {
+		return false
+	}
+	k := name[i+1:]
+	for _, p := range []string{"own.", "call.holds", "lock.", "block.locked", "atomic.incs", "ghost.owned", "ghost.by"} {
+		if strings.HasPrefix(k, p) {
+			return true
+		}
+	}
+	return false
 }
